@@ -2237,16 +2237,24 @@ impl<'a> Searcher<'a> {
                         }
                         Op::Eeq => val.eq(&field_value.to_string()),
                         Op::Ene => val.ne(&field_value.to_string()),
-                        // two numbers written as literals (`where -3 <= 24`) are ordered by value
+                        // two numbers written as literals (`where -3 <= 24`) are ordered by value,
+                        // any other texts by their characters (so that `not a > b` is `a <= b`)
                         Op::Gt | Op::Gte | Op::Lt | Op::Lte => {
-                            match (field_value.to_string().parse::<f64>(), val.parse::<f64>()) {
-                                (Ok(a), Ok(b)) => match op {
+                            let text = field_value.to_string();
+                            let number = |s: &str| s.parse::<f64>().ok().filter(|n| !n.is_nan());
+                            match (number(&text), number(&val)) {
+                                (Some(a), Some(b)) => match op {
                                     Op::Gt => a > b,
                                     Op::Gte => a >= b,
                                     Op::Lt => a < b,
                                     _ => a <= b,
                                 },
-                                _ => false,
+                                _ => match op {
+                                    Op::Gt => text > val,
+                                    Op::Gte => text >= val,
+                                    Op::Lt => text < val,
+                                    _ => text <= val,
+                                },
                             }
                         }
                         _ => false,
